@@ -3,6 +3,7 @@
 //!   h2v gen <profile> <seed> <cases>      write an op script to stdout
 //!   h2v run                               execute the op script on stdin against the real code,
 //!                                         one answer line per op line on stdout
+mod codec;
 mod gen_pure;
 mod pure;
 mod util;
@@ -30,6 +31,8 @@ fn main() {
             let out = std::io::stdout();
             let mut out = std::io::BufWriter::new(out.lock());
             let mut pure = pure::Pure::new();
+            let mut cod = codec::CodecH::new(16384);
+            let mut rd_items: Vec<String> = vec![];
             for line in stdin.lock().lines() {
                 let line = line.unwrap();
                 let t = line.trim();
@@ -37,7 +40,23 @@ fn main() {
                     continue;
                 }
                 let ws: Vec<&str> = t.split(' ').filter(|w| !w.is_empty()).collect();
-                let ans = std::panic::catch_unwind(std::panic::AssertUnwindSafe(|| pure.handle(&ws)));
+                let ans = std::panic::catch_unwind(std::panic::AssertUnwindSafe(|| {
+                    if let Some(a) = pure.handle(&ws) {
+                        return Some(a);
+                    }
+                    if ws[0] == "spec_rd_all" {
+                        // everything the real reader produced since `rd_new`, whatever the chunking was
+                        let v: Vec<&str> = rd_items.iter().map(|s| s.as_str()).filter(|s| *s != "-" && *s != "dead").collect();
+                        return Some(if v.is_empty() { "-".to_string() } else { v.join(" ;; ") });
+                    }
+                    let a = cod.handle(&ws)?;
+                    if ws[0] == "rd_new" {
+                        rd_items.clear();
+                    } else if ws[0] == "rd_feed" || ws[0] == "rd_eof" {
+                        rd_items.push(a.clone());
+                    }
+                    Some(a)
+                }));
                 let ans = match ans {
                     Ok(Some(a)) => a,
                     Ok(None) => "bad-op".to_string(),
